@@ -307,6 +307,12 @@ class Run(object):
         if kind == 'setbuf':
             child.buffer = self.conv(op['v'])
             return None
+        if kind == 'setattr':
+            if op['k'] not in ('searchwindowsize', 'maxread', 'timeout', 'delayafterread') or (op['k'] == 'maxread' and not op['v']):
+                raise HarnessError('setattr of %r' % (op.get('k'),))
+            setattr(child, op['k'], op['v'])
+            self.w.probe('attribute_changed_between_calls')
+            return None
         if kind == 'rnb':
             return child.read_nonblocking(op.get('size', 1), op.get('to', -1))
         if kind == 'send':
